@@ -3,7 +3,7 @@ from __future__ import annotations
 
 import ast
 
-from ..astq import U, kwarg, raised_class_name, statements, store_targets
+from ..astq import Canon, U, kwarg, raised_class_name, statements, store_targets
 from ..cfg import CFG, header_walk
 from ..index import AnalysisError, root_name, walk_no_nested
 from ..selftest import V
@@ -107,27 +107,27 @@ def _rebound_to_copy_before(f, name, node) -> bool:
 
 INVENTORY = [
     ("AbstractDataframeDataReader._clean_index", (".index.is_unique",), "duplicate rows"),
-    ("AbstractDataframeDataReader._check_ID", "inferred_dtype not in valid_dtypes", "identifier dtype"),
+    ("AbstractDataframeDataReader._check_ID", ("infer_dtype(", " not in "), "identifier dtype"),
     ("AbstractDataframeDataReader._check_ID", (".isna().any()",), "missing identifier"),
     ("AbstractDataframeDataReader._check_ID", (" < 0).any()",), "negative integer identifier"),
     ("AbstractDataframeDataReader._check_ID", (".str.len() == 0).any()",), "empty string identifier"),
-    ("AbstractDataframeDataReader._clean_numeric_data", "types_nok", "non-numeric columns"),
+    ("AbstractDataframeDataReader._clean_numeric_data", ("_check_numeric_type(", ".dtypes"), "non-numeric columns"),
     ("AbstractDataframeDataReader._clean_numeric_data", ("len(", "!= 0"), "infinite values"),
     ("AbstractDataframeDataReader.read", ("not isinstance(", "pd.DataFrame)"), "not a table"),
-    ("VisitDataframeDataReader._check_TIME", ("not cls._check_numeric_type(",), "non-numeric TIME"),
+    ("VisitDataframeDataReader._check_TIME", ("not $0._check_numeric_type(",), "non-numeric TIME"),
     ("VisitDataframeDataReader._check_TIME", (".isna().any()",), "NaN / inf TIME"),
     ("VisitDataframeDataReader._check_headers", ("len(", "> 0"), "missing ID / TIME column"),
-    ("VisitDataframeDataReader._clean_dataframe", "self.n_visits == 0", "empty table"),
-    ("VisitDataframeDataReader._clean_dataframe", "self.dimension < 1", "no feature"),
-    ("EventDataframeDataReader._clean_dataframe", ("[self.event_time_name] > 0", ".all()"), "event time <= 0"),
+    ("VisitDataframeDataReader._clean_dataframe", "$0.n_visits == 0", "empty table"),
+    ("VisitDataframeDataReader._clean_dataframe", "$0.dimension < 1", "no feature"),
+    ("EventDataframeDataReader._clean_dataframe", ("[$0.event_time_name] > 0", ".all()"), "event time <= 0"),
     ("EventDataframeDataReader._clean_dataframe", "astype(int)", "non-integer event flag"),
     ("EventDataframeDataReader._clean_dataframe", "nunique()", "several events per subject"),
     ("EventDataframeDataReader._clean_dataframe", (".columns.tolist() !=",), "unexpected event columns"),
     ("JointDataframeDataReader._clean_dataframe", "index.equals", "subjects without visit or event"),
-    ("JointDataframeDataReader._clean_dataframe", "-self.tol_diff", "event before the last visit"),
+    ("JointDataframeDataReader._clean_dataframe", "-$0.tol_diff", "event before the last visit"),
     ("CovariateDataframeDataReader._clean_dataframe_covariates", "isna().any()", "missing covariate"),
     ("CovariateDataframeDataReader._clean_dataframe_covariates", "astype(int)", "non-integer covariate"),
-    ("CovariateDataframeDataReader._clean_dataframe_covariates", "nunique()[self.covariate_names]", "covariate varying within a subject"),
+    ("CovariateDataframeDataReader._clean_dataframe_covariates", "nunique()[$0.covariate_names]", "covariate varying within a subject"),
     ("CovariateDataframeDataReader._clean_dataframe_covariates", "< 2", "covariate without variability"),
 ]
 
@@ -154,14 +154,13 @@ def r2_refusals(ctx):
         if f is None:
             raise AnalysisError("C14.R2", f"anchor vanished: {qual}")
         cfg = CFG(f.node)
+        cn = Canon(f.node)
         found = False
         for r in cfg.nodes(lambda s: isinstance(s, ast.Raise)):
             for h, lab in cfg.if_guards(r):
                 toks = needle if isinstance(needle, tuple) else (needle,)
-                if all(t in U(cfg.stmt[h].test) for t in toks):
+                if all(t in cn.text(cfg.stmt[h].test) for t in toks):
                     found = True
-        if not found and needle == "types_nok":
-            found = any(isinstance(s, ast.If) and U(s.test) == "types_nok" for s in statements(f.node))
         ctx.check(found, "C14.R2", f, f.node, f"refusal present: {what}", f"the refusal of `{what}` (guard containing {needle}) is gone: such tables are silently accepted",
                   construct=f"refusal: {what}")
 
@@ -195,14 +194,13 @@ def r3_ordering(ctx):
     loop = [n for n, st in rcfg.stmt.items() if isinstance(st, ast.For) and "groupby" in U(st.iter)]
     ctx.check(len(clean_calls) == 3 and bool(loop) and all(rcfg.dominates(c, loop[0]) for c in clean_calls), "C14.R3", read, read.node, "index, numeric and layout cleaning all precede the loading loop",
               "a cleaning step is skipped on some path before individuals are loaded", construct="cleaning before loading")
-    from ..astq import Canon
     ad = ix.func(f"{PKG}.individual_data", "IndividualData.add_observations", "C14.R3")
     ca = Canon(ad.node)
     tp = [t for t in ca.assigned("$0.timepoints") if "concatenate" in t or "insert" in t]
     ob = [t for t in ca.assigned("$0.observations") if "concatenate" in t or "insert" in t]
-    ctx.form("C14.R3", ad, ad.node, tp[0] if tp else "", {"np.concatenate([$0.timepoints[:bisect($0.timepoints, t)], [t], $0.timepoints[bisect($0.timepoints, t):]])"},
+    ctx.form("C14.R3", ad, ad.node, tp[0] if tp else "", {"np.concatenate([$0.timepoints[:bisect($0.timepoints, %0)], [%0], $0.timepoints[bisect($0.timepoints, %0):]])"},
              [("bisect", "searchsorted", "sort")], "ages inserted at the bisection index", "visits are appended without keeping the ages sorted", construct="sorted insertion of ages")
-    ctx.form("C14.R3", ad, ad.node, ob[0] if ob else "", {"np.concatenate([$0.observations[:bisect($0.timepoints, t)], [obs], $0.observations[bisect($0.timepoints, t):]])"},
+    ctx.form("C14.R3", ad, ad.node, ob[0] if ob else "", {"np.concatenate([$0.observations[:bisect($0.timepoints, %0)], [%1], $0.observations[bisect($0.timepoints, %0):]])"},
              [("bisect($0.timepoints", "searchsorted", "argsort")], "values inserted at the same index as their age", "values are not inserted at the index of their age: ages and values get misaligned",
              construct="sorted insertion of values")
     acfg = CFG(ad.node)
@@ -215,11 +213,13 @@ def r3_ordering(ctx):
     mk = cc.assigned("$0.mask")
     ctx.form("C14.R3", cv, cv.node, mk[0] if mk else "", {f"torch.zeros_like({Z}) * (~torch.isnan({Z})).float()"}, ["isnan", ("zeros_like", "padding")],
              "mask = padding mask * not-NaN", "the dataset mask no longer combines the padding mask with the not-NaN mask: missing (or padded) entries count as observed", construct="mask construction")
+    lines = cc.lines(True)
     stores = {}
     for st in sorted(statements(cv.node), key=lambda x: x.lineno):
         if isinstance(st, ast.Assign) and isinstance(st.targets[0], ast.Subscript):
             stores[cc.text(st.targets[0])] = cc.text(st.value)
-    ok = stores.get(f"{Z}[i, 0:nb_vis, :]") == "torch.tensor(np.array($1[i].observations), dtype=torch.float32)" and stores.get(f"torch.zeros_like({Z})[i, 0:nb_vis, :]") == "1.0"
+    ok = (f"for (enumerate($0.n_visits_per_individual), (%0, %1))" in lines
+          and f"{Z}[%0, 0:%1, :] = torch.tensor(np.array($1[%0].observations), dtype=torch.float32)" in lines and f"torch.zeros_like({Z})[%0, 0:%1, :] = 1.0" in lines)
     ctx.anchor(ok, "C14.R3", cv, cv.node, "values and padding mask filled on the same rows [i, 0:nb_vis, :]", "per-individual fill of values / padding mask", construct="aligned fill")
     ctx.check(stores.get(f"{Z}[torch.isnan({Z})]") == "0.0", "C14.R3", cv, cv.node, "NaNs zero-filled in the value tensor", "NaNs are no longer zero-filled in the value tensor (a NaN at a masked position would propagate)",
               construct="NaN zero-fill")
@@ -232,7 +232,7 @@ def r3_ordering(ctx):
     for st in statements(gv.node):
         if isinstance(st, ast.Assign) and isinstance(st.targets[0], ast.Subscript):
             st_[cg.text(st.targets[0])] = cg.text(st.value)
-    key = "values_to_pick_from[$1, :$0.n_visits_per_individual[$1], ...].clone().detach()[$0.mask[$1, :$0.n_visits_per_individual[$1], :] == 0, ...]"
+    key = "%0[$1, :$0.n_visits_per_individual[$1], ...].clone().detach()[$0.mask[$1, :$0.n_visits_per_individual[$1], :] == 0, ...]"
     txt = next((k + " <- " + v for k, v in st_.items() if "nan" in v), "")
     ctx.form("C14.R3", gv, gv.node, txt, {key + " <- float('nan')"}, ["$0.mask", "nan", ("clone", "copy")], "NaN restored from the mask on a clone",
              "get_values_patient no longer restores NaN from the mask on a copy (zero-filled values would be read back as observations, or the dataset modified)", construct="NaN restored from mask")
